@@ -10,7 +10,7 @@ def check(c):
         servelib.model(c, "VarySufficient VaryPreserved", [("noVaryOrigin", ["VarySufficient"]), ("f5", ["VarySufficient"])], pairs=True)
     else:
         servelib.model(c, "VaryPreserved", [])
-        c.negative_twin("CorsMC", servelib.CORS_CFG % dict(bug="f5", pairs="TRUE", invs="VarySufficient"),
+        c.negative_twin("CorsMC", servelib.CORS_CFG % dict(bug="f5", pairs="TRUE", invs="VarySufficient", dumpsems="FALSE"),
                         tag="CorsMC_neg_f5", expect=["VarySufficient"], timeout=600)
     # the configurations of one seed are dealt to 4 shards (validated concurrently); thorough: 4 seeds x 4 shards
     shards = []
